@@ -48,7 +48,7 @@ def parseAct? (s : String) : Option Act :=
 def parseT? (s : String) : Option (Option Nat) :=
   if s == "-" then some none else s.toNat?.map some
 
-def groupMembers (s : S) (g : Nat) : List (Nat × Call) :=
+def groupMembersIdx (s : S) (g : Nat) : List (Nat × Call) :=
   (List.zip (List.range s.calls.length) s.calls).filter (fun pc => pc.2.group == some g)
 
 /-- events produced by one model step -/
@@ -72,10 +72,10 @@ def events (before after : S) : List String :=
       else none
     | none => none)
   let groups : List String := (List.range after.groups).filterMap (fun g =>
-    let ms := groupMembers after g
+    let ms := groupMembersIdx after g
     let doneNow := ms.all (fun pc => pc.2.res.isSome)
-    let doneBefore := g < before.groups && (groupMembers before g).all (fun pc => pc.2.res.isSome)
-      && (groupMembers before g).length == ms.length
+    let doneBefore := g < before.groups && (groupMembersIdx before g).all (fun pc => pc.2.res.isSome)
+      && (groupMembersIdx before g).length == ms.length
     if doneNow && !doneBefore then
       if ms.any (fun pc => pc.2.res == some .sendErr || pc.2.res == some .abandoned) then some s!"mdone {g}=err"
       else some s!"mdone {g}={",".intercalate (ms.map (fun pc => (pc.2.res.map showRes).getD "?"))}"
